@@ -44,6 +44,22 @@ def run_impl(ctx, tag, lines):
     return out
 
 
+# Unicode White_Space (what Rust's char::is_whitespace tests). Python's str.isspace() also accepts U+001C–U+001F, which
+# Rust does not: never use isspace() to decide what the library treats as blank.
+_WS_SET = set("\t\n\x0b\x0c\r \x85\xa0\u1680\u2000\u2001\u2002\u2003\u2004\u2005\u2006\u2007\u2008\u2009\u200a\u2028\u2029\u202f\u205f\u3000")
+
+
+_WS_RE = re.compile("[" + "".join(re.escape(c) for c in sorted(_WS_SET)) + "]+")
+
+
+def is_ws(s):
+    return len(s) > 0 and all(c in _WS_SET for c in s)
+
+
+def is_ws_or_empty(s):
+    return all(c in _WS_SET for c in s)
+
+
 def fail(inp, observed, expected, requests, **kw):
     d = {"input": inp, "observed": observed, "expected": expected, "requests": requests}
     d.update(kw)
@@ -937,7 +953,7 @@ def check_occs(lang, occs, toks_text, skipped):
 
 
 def _is_skipped_text(t):
-    return t == "-" or all(c.isspace() for c in t)
+    return t == "-" or is_ws_or_empty(t)
 
 
 def oracle_c06(ctx, focus):
@@ -1505,6 +1521,14 @@ def oracle_c13(ctx, focus):
 # ------------------------------------------------------------------------------------------------
 # C14: stateless, pure, shareable; no output on the standard streams
 
+def small_first(bank):
+    """a short multiplier phrase from the bank (e.g. `ten`, `twelve`)"""
+    for p_ in bank:
+        if " " not in p_ and "-" not in p_ and len(p_) > 2:
+            return p_
+    return bank[0]
+
+
 def oracle_c14(ctx, focus):
     import subprocess, glob
     failures, n = [], 0
@@ -1528,6 +1552,14 @@ def oracle_c14(ctx, focus):
                 lines.append("apply\t%s\t%s\t|0|0|0|-" % (lang, esc(w)))
         # the longest spellings as ordinals in every inflection, each several times in the mix: anything memoised per
         # interpreter under too coarse a key shows up as history dependence
+        # huge numbers (stacked multipliers) with a decimal part, as ordinals, next to zeros: rare value ranges
+        lits_ = [w for w in __import__("vocab").source_literals(lang) if w and " " not in w]
+        sc_ = [w for w in lits_ if re.search(r"ill[i\u00f3o]|ilj|ilh|^bilh|^bili|liard", w)][:8]
+        one_ = bank[1] if len(bank) > 1 else bank[0]
+        for a_ in sc_:
+            for b_ in sc_[:3]:
+                ph_ = "%s %s %s %s %s" % (small_first(bank), a_, b_, streams.DECSEP[lang].lower(), one_)
+                lines.append("text\t%s\t%s\t%s" % (lang, THR0, esc(ph_)))
         ordmax, ninfl = ORD_SPEC[lang]
         lo = ["gen\tord\t%s\t%d\t0\t%d" % (lang, r, i) for r in long_numbers(ctx, lang, limit=ordmax + 1)[:12] for i in range(ninfl)]
         for (g, ph, e) in _spec_cases(ctx, "c14o" + lang, lo):
@@ -1722,9 +1754,9 @@ WS_CHARS = ["\t", "\n", "\x0b", "\x0c", "\r", " ", "\x85", " ", " ", " ", "
 def ws_substitute(rng, s):
     out, i = [], 0
     while i < len(s):
-        if s[i].isspace():
+        if s[i] in _WS_SET:
             j = i
-            while j < len(s) and s[j].isspace():
+            while j < len(s) and s[j] in _WS_SET:
                 j += 1
             if rng.chance(1, 40):
                 # a very long run (hundreds of characters / bytes): the amount of whitespace must not matter either
@@ -1753,7 +1785,7 @@ def oracle_c17(ctx, focus):
         reqs, meta = [], []
         for _ in range(900 if ctx.tier != "thorough" else 15000):
             t = sentence(rng, lang, bank, extra=["o", "neuf", "le", "un", "."] + linking_words(lang)[:6])
-            t = re.sub(r"\s+", " ", t).strip()
+            t = _WS_RE.sub(" ", t).strip(" ")
             if not t:
                 continue
             w = ws_substitute(rng, t)
@@ -1776,9 +1808,9 @@ def oracle_c17(ctx, focus):
                 failures.append(fail(w, "occurrences %s" % [x[0] for x in b], "as with single spaces: %s" % [x[0] for x in a], reqs[5 * i:5 * i + 2], lang=lang, what="whitespace"))
             else:
                 # spans cover the same words
-                wa = [[x[0] for x in tk1[o[0]:o[1]] if not x[0].isspace()] for o in o1]
-                wb = [[x[0] for x in tk2[o[0]:o[1]] if not x[0].isspace()] for o in o2]
-                norm = lambda ws: [re.sub(r"\s+", " ", x) for x in ws]
+                wa = [[x[0] for x in tk1[o[0]:o[1]] if not is_ws(x[0])] for o in o1]
+                wb = [[x[0] for x in tk2[o[0]:o[1]] if not is_ws(x[0])] for o in o2]
+                norm = lambda ws: [_WS_RE.sub(" ", x) for x in ws]
                 if [norm(x) for x in wa] != [norm(x) for x in wb]:
                     failures.append(fail(w, "spans cover %s" % wb, "%s" % wa, reqs[5 * i:5 * i + 2], lang=lang, what="whitespace-span"))
             if outs[5 * i + 2] != outs[5 * i + 3]:
@@ -1808,7 +1840,7 @@ def oracle_c18(ctx, focus):
     thrs = [THR0, t2nlib.thr_bits(1.0), t2nlib.thr_bits(10.0), t2nlib.thr_bits(float("inf")), t2nlib.thr_bits(float("nan"))]
     numw = ["one", "eight", "twelve", "twenty", "hundred", "thousand", "first", "third", "twenty-one", "zero", "fifth", "nought", "ninety"]
     plain = ["cat", "x", "oscar", "the", "and", "is", "s", "point", "a"]
-    punct = [",", ".", ";", "!", "-", "(", "...", ":"]
+    punct = [",", ".", ";", "!", "-", "(", "...", ":", "\u0001", "\u001f", "\u0000", "\u2010", "7"]
     # every alphabetic string literal of the English module that is not a number word is a possible neighbour too
     # (a special case for one particular word next to `o` would name that word in the source)
     import vocab as _vocab
@@ -1890,7 +1922,7 @@ def oracle_c18(ctx, focus):
             failures.append(fail(t, "PANIC", "returns", [], what="panic"))
             continue
         occs, toks = parse_occ_answer(o)
-        sig = [i for i, x in enumerate(toks) if not all(c.isspace() for c in x[0])]
+        sig = [i for i, x in enumerate(toks) if not is_ws_or_empty(x[0])]
         subst = [x[0] for x in toks]
         expect_nan = {}
         for k, i in enumerate(sig):
@@ -1907,7 +1939,7 @@ def oracle_c18(ctx, focus):
         t2 = "".join(subst)
         reqs2 += ["occ\ten\t%s\t%s" % (th, esc(t)), "occ\ten\t%s\t%s" % (th, esc(t2))]
         meta2.append((t, t2))
-        distinct.add(tuple(x[0].lower() for x in toks if not x[0].isspace()))
+        distinct.add(tuple(x[0].lower() for x in toks if not is_ws(x[0])))
     outs2 = run_impl(ctx, "c18b", reqs2)
     for i, (t, t2) in enumerate(meta2):
         n += 2
